@@ -16,12 +16,16 @@ for mp in sorted(glob.glob(os.path.join(root, 'seeded', '*', 'meta.json'))):
     extra = m.get('other_checks', '')
     caught = c.get('caught_in', '?')
     sigs = c.get('signatures', [])
+    rq = [v for k, v in sorted(m.get('recheck', {}).items()) if v.get('caught') and k.endswith('/quick')]
     if not c.get('caught'):
         for k, v in sorted(m.get('recheck', {}).items()):
             if v.get('caught'):
                 caught = 'missed at first; %s after the check was strengthened' % k.split('/')[1]
                 sigs = v.get('signatures', [])
                 break
+    elif caught == 'thorough' and rq:
+        caught = 'thorough only at first; quick after the check was strengthened'
+        sigs = rq[0].get('signatures', sigs)
     for k, v in sorted(m.get('other_checks_detail', {}).items()):
         if v.get('caught'):
             extra = (extra + '; ' if extra else '') + 'also caught by %s %s' % tuple(k.split('/'))
